@@ -89,6 +89,34 @@ func main() {
 			fmt.Println("discharged:", n, "fatal:", c.R.fatal)
 			return
 		}
+		if *dump == "idx" {
+			c := &Ctx{P: p, R: newReport("dump", "quick", 0)}
+			np, nu := 0, 0
+			for _, fn := range c.moduleFuncs() {
+				for _, s := range indexSites(fn) {
+					if s.Proven {
+						np++
+					} else {
+						nu++
+						fmt.Printf("UNPROVEN %-50s %-40s need>=%d fact=%s %s\n", funcKey(fn), exprOfValue(s.Base)+":"+s.Desc, s.Need, s.Fact, p.pos(s.Pos))
+					}
+				}
+			}
+			fmt.Println("proven", np, "unproven", nu)
+			vp, vu := 0, 0
+			for _, fn := range c.moduleFuncs() {
+				for _, s := range varIndexSites(fn) {
+					if s.Proven {
+						vp++
+					} else {
+						vu++
+						fmt.Printf("VAR-UNPROVEN %-46s %-30s idx=%-22s %s  %s\n", funcKey(fn), exprOfValue(s.Base), exprOfValue(s.Index), s.Why, p.pos(s.Pos))
+					}
+				}
+			}
+			fmt.Println("variable-index proven", vp, "unproven", vu)
+			return
+		}
 		if *dump == "ro" {
 			c := &Ctx{P: p, R: newReport("dump", "quick", 0)}
 			dumpCensus(c)
